@@ -1013,9 +1013,10 @@ impl<'a> Drop for ZipFile<'a> {
                 match reader.read(&mut buffer) {
                     Ok(0) => break,
                     Ok(_) => (),
-                    Err(e) => {
-                        panic!("Could not consume all of the output of the current ZipFile: {e:?}")
-                    }
+                    // Drop cannot report the error and must not panic (a second panic while
+                    // unwinding aborts the process); the stream is left where the failure
+                    // occurred and the next read from it reports the error.
+                    Err(_) => break,
                 }
             }
         }
